@@ -40,6 +40,16 @@ impl TypeRegistry {
     }
 
     pub(crate) fn unresolved(&self) -> Vec<ItemPath> {
+        #[cfg(pyxis_verif)]
+        if let Some(scheduled) = crate::verif::scheduled(
+            self.types
+                .iter()
+                .filter(|(_, t)| !t.is_predefined() && !t.is_resolved())
+                .map(|(k, _)| k.clone())
+                .collect(),
+        ) {
+            return scheduled;
+        }
         self.types
             .iter()
             .filter(|(_, t)| !t.is_predefined() && !t.is_resolved())
@@ -48,6 +58,14 @@ impl TypeRegistry {
     }
 
     pub(crate) fn add(&mut self, type_: ItemDefinition) {
+        #[cfg(pyxis_verif)]
+        crate::verif::emit(|| {
+            crate::verif::Event::ItemAdded(
+                type_.path.clone(),
+                format!("{:?}", type_.category),
+                self.types.contains_key(&type_.path),
+            )
+        });
         self.types.insert(type_.path.clone(), type_);
     }
 
